@@ -40,6 +40,22 @@ class Codec:
         return datetime.utcnow().strftime("%Y%m%d-%H:%M:%S.%f")[:-3]
 
     @staticmethod
+    def _skip_len(rawmsg: bytes, frame_start: int) -> int:
+        """Bytes to drop when nothing can be decoded at frame_start (-1: no frame start).
+
+        Everything up to the next frame start; without one the whole buffer, except a
+        tail that may be the beginning of a frame start cut by the read boundary.
+        """
+        marker = b"8=FIX."
+        next_start = rawmsg.find(marker, frame_start + 1)
+        if next_start != -1:
+            return next_start
+        for n in range(min(len(marker) - 1, len(rawmsg)), 0, -1):
+            if rawmsg.endswith(marker[:n]):
+                return len(rawmsg) - n
+        return len(rawmsg)
+
+    @staticmethod
     def _is_number(text: str) -> bool:
         """Plain ASCII decimal digits (what int() can take without raising)."""
         return text.isascii() and text.isdigit() and len(text) <= 18
@@ -156,7 +172,7 @@ class Codec:
         valid_idx = rawmsg.find(b"8=FIX.")
         if valid_idx == -1:
             assert silent, "no fix header"
-            return None, len(rawmsg), None
+            return None, self._skip_len(rawmsg, -1), None
 
         parsed_length = valid_idx
 
@@ -180,23 +196,23 @@ class Codec:
                 % (value, self.protocol.beginstring)
             )
             assert silent, "protocol beginstring mismatch"
-            return (None, len(rawmsg), None)
+            return (None, self._skip_len(rawmsg, valid_idx), None)
 
         toks = msg[1].split("=", 1)
         if len(toks) != 2:
             assert silent, f"BodyLength split error {msg}"
-            return (None, len(rawmsg), None)
+            return (None, self._skip_len(rawmsg, valid_idx), None)
         tag, value = toks
 
         msg_length = len(msg[0]) + len(msg[1]) + len("10=000") + 3
         if tag != FTag.BodyLength:
             logging.error(f"*** BodyLength missing or not 2nd field *** [{tag}]: {msg}")
             assert silent, "2nd tag must be BodyLength"
-            return (None, len(rawmsg), None)
+            return (None, self._skip_len(rawmsg, valid_idx), None)
         elif not self._is_number(value):
             # garbled length (not plain digits): malformed frame, never an exception
             assert silent, f"BodyLength is not a number {msg}"
-            return (None, len(rawmsg), None)
+            return (None, self._skip_len(rawmsg, valid_idx), None)
         else:
             msg_length += int(value)
 
@@ -232,14 +248,14 @@ class Codec:
             toks = m.split("=", 1)
             if len(toks) != 2:
                 assert silent, f"incomplete tag {m}"
-                return (None, len(rawmsg), None)
+                return (None, self._skip_len(rawmsg, valid_idx), None)
             tag, value = toks
 
             if not self._is_number(tag) or (len(tag) > 1 and tag[0] == "0"):
                 # tags on the wire are plain decimal numbers ('abc', '', '+5', '035'
                 #   are garbage): malformed frame, never an exception
                 assert silent, f"incorrect tag {m}"
-                return (None, len(rawmsg), None)
+                return (None, self._skip_len(rawmsg, valid_idx), None)
 
             if tag == FTag.CheckSum:
                 cheksum_base = self.SOH.join(msg[:-1])
